@@ -193,6 +193,48 @@ func runC18(p *core.Program, r *core.Report) {
 			}
 		}
 	}
+	// ---- Once / Before: a return that no callback call of this invocation reaches hands
+	// out the memoized value - Val() of the item the cache lookup returned
+	for _, name := range []string{"gogu.Once", "gogu.Before"} {
+		fn := p.Func(name)
+		if fn == nil {
+			continue
+		}
+		cb := funcParam(fn)
+		if cb == nil {
+			continue
+		}
+		calls := path.CallsOfValue(fn, cb, true)
+		for _, alt := range returnAlternatives(fn, 0) {
+			fresh := false
+			for _, c := range calls {
+				if c.Parent() == fn && (c.Block() == alt.blk || c.Block().Dominates(alt.blk)) {
+					fresh = true
+				}
+			}
+			if fresh {
+				continue
+			}
+			okV := false
+			if vc, ok := alt.val.(*ssa.Call); ok && path.IsCallTo(vc, p.ModulePath+"/cache", "Item.Val") && len(vc.Call.Args) == 1 {
+				for _, o := range path.Origins(vc.Call.Args[0]) {
+					okV = false
+					if ex, ok := o.(*ssa.Extract); ok && ex.Index == 0 {
+						if gc, ok := ex.Tuple.(*ssa.Call); ok && path.IsCallTo(gc, p.ModulePath+"/cache", "Cache.Get") {
+							okV = true
+							continue
+						}
+					}
+					break
+				}
+			}
+			r.Obligation("PV1", okV, map[string]any{"rule": "PV1", "function": name, "what": "without a fresh run the memoized value is returned", "at": p.InstrPos(alt.ret), "ok": okV})
+			if !okV {
+				r.Violation(core.Diag{Rule: "PV1", Func: name, Object: "memoized value", Pos: p.InstrPos(alt.ret),
+					Reason: "a return that no callback call of this invocation reaches does not hand out Val() of the item the cache lookup returned (the result of the last run)"})
+			}
+		}
+	}
 	// ---- After / Before
 	for _, name := range []string{"gogu.After", "gogu.Before"} {
 		fn := mustFunc(p, r, name)
@@ -605,6 +647,17 @@ func runC18(p *core.Program, r *core.Report) {
 				// an error constructed before the loop (argument rejection) is fine when the callback cannot have run
 				if call.Block().Dominates(b) || loopReaches(loop, b) {
 					okErr = false
+				} else {
+					// ... and only a negative count is rejected: with n == 0 nothing fails
+					neg := guardedBy(fn, b, func(cd path.Cond, truth bool) bool {
+						k, isK := path.IntConst(cd.Y)
+						rel := normCmp(cd.Op, truth)
+						return cd.X == ssa.Value(nPar) && isK && ((rel == "<" && k == 0) || (rel == "<=" && k == -1))
+					})
+					r.Obligation("ER4", neg, map[string]any{"rule": "ER4", "function": name, "what": "only a negative count is rejected", "at": p.InstrPos(ret), "ok": neg})
+					if !neg {
+						r.Violation(core.Diag{Rule: "ER4", Func: name, Object: "argument rejection", Pos: p.InstrPos(ret), Reason: "an error is made up before the first attempt on a path where n is not known to be negative: Retry(0) must make no attempt and report (0, nil)"})
+					}
 				}
 			}
 			r.Obligation("PV1", okCnt && okErr, map[string]any{"rule": "PV1", "function": name, "what": "returns the attempt counter and the last error", "at": p.InstrPos(ret), "ok": okCnt && okErr})
